@@ -17,6 +17,7 @@ func init() {
 		c02OneFrameOnePacket(c)
 		c02Synchronous(c)
 		c02CandidateIsolation(c)
+		c08SwitchOnlyOnUpgrade(c)          // C02.5b = C08.2: a candidate becomes the current transport (whose packets are delivered) only upon its UPGRADE packet
 		c03ConstructionWiring(c, "C02.6b") // the transport's packet event reaches onPacket
 		c02Jsonp(c)
 		c10BoundedBody(c, "C02.9")                                                     // the whole body below the limit reaches OnData: the read limit is MaxHttpBufferSize() itself, not a smaller or unrelated quantity
